@@ -114,6 +114,29 @@ CHECKS.update({
             "DESIGN.md §4 C16"),
 })
 
+CHECKS.update({
+    "C01": ("exploration", "bounded-exhaustive enumeration of primitive calls, reader inputs and nesting depths on an AddressSanitizer build with the Scheme heap poisoned outside live objects",
+            "(1) every procedure exported by the 14 R7RS-small libraries (found by introspection, 343 procedures) plus the string-cursor "
+            "primitives applied to every argument tuple over a 67-value alphabet (arity <= 2; a 12-value core for a third argument): each call "
+            "must end in a value or an exception object caught by guard, and after every batch a fixed probe program must evaluate as in a "
+            "pristine context; (2) read, (scheme read), string->number (radix 2, 10, 16) and eval on all byte strings up to length 3 (4 thorough) "
+            "over a 38-symbol reader alphabet incl. invalid UTF-8 bytes; (3) 14 nesting / length families for read, write, equal?, eval, "
+            "append, apply up to depth 10^6 on the ASan and the plain build: a value or a catchable error, never a signal. Violations are an "
+            "AddressSanitizer report, a fatal signal, abort, a C-level hang (no VM instruction executed for the time budget) or a probe mismatch.",
+            "Calls that legitimately do not terminate or that exhaust memory by contract (e.g. make-vector 2^62) are skipped by a listed rule; "
+            "a C stack overflow seen only under ASan's inflated frames is not counted when the plain build ends cleanly.", "DESIGN.md §4 C01"),
+    "C13": ("model_checking", "explicit-state exploration of interleaved operation sequences on 2-3 contexts against a solo baseline, plus stateless exploration of OS-thread schedules (pre-emption bounded) at interposed process-wide libc calls, plus a free-running ThreadSanitizer pass",
+            "harness/ctxmc.c: (a) two contexts (three in thorough) in one OS thread, every pair of per-context operation sequences over "
+            "{define shared name, define private name, record type, import C-backed library + table, allocate through collections, intern "
+            "symbols, mutate, destroy} x every interleaving; after every operation each live context's probe must equal the probe of a context "
+            "that lived alone through the same own operations (ASan build). (b) 2-3 pthreads each create a context, load the standard "
+            "environment, import libraries, run a collecting workload and destroy it under a cooperative scheduler whose scheduling points are "
+            "the interposed dlopen/dlclose/fopen/fclose/getenv calls: every schedule with <= 1 (2 thorough) pre-emptions; outputs equal the "
+            "solo baseline. (c) the same bodies free-running under ThreadSanitizer with 2..16 threads: no race report.",
+            "sexp_scheme_init() is called once before the threads start; (c) is a detector pass that justifies the choice of scheduling points, "
+            "not an enumeration.", "DESIGN.md §4 C13"),
+})
+
 NOT_YET = {}
 
 
